@@ -66,6 +66,11 @@ def d1(cx: Cx, ob: Ob) -> None:
             ob.undecide("chain's fold is not a two-level loop over converters and records")
             continue
         outer, inner = loops
+        from ..rules import _strip_views
+
+        # full-slice / list() snapshots iterate the same elements in the same order
+        outer = type(outer)(outer.kind, outer.line, outer.a, _strip_views(outer.b), outer.c, outer.body, outer.cov) if _strip_views(outer.b) != outer.b else outer
+        inner = type(inner)(inner.kind, inner.line, inner.a, _strip_views(inner.b), inner.c, inner.body, inner.cov) if _strip_views(inner.b) != inner.b else inner
         if outer.b != convs:
             if any(callee_name(x) in ("reversed", "sorted") for x in subterms(outer.b) if op(x) == "call"):
                 ob.violate(fn.qualname, where(fn, outer.line), f"chain iterates `{show(outer.b)[:50]}`: priority must follow the given order (earlier converters win)", detail="order")
@@ -142,6 +147,9 @@ def d3(cx: Cx, ob: Ob) -> None:
             ob.undecide("record selection of get_subconverter is not a single comprehension or append loop")
             continue
         found = True
+        from ..rules import _strip_views
+
+        it = _strip_views(it)
         if it != ("attr", me, "records"):
             # selection driven by the requested prefixes: sound only if a record named twice is kept once
             looks_up = any(op(x) == "call" and callee_name(x) == "get_record" for t_ in (elt, it) for x in subterms(t_)) or any(op(x) == "call" and callee_name(x) == "get_record" for c, _ in conds for x in subterms(c))
